@@ -253,13 +253,21 @@ def step (s : Sim) (wl : WLast) (ev ob : String) : Sim × WLast × Option String
       (s', wl, if okLS ∧ showSnap nb' == snapB then none
                else some (if okLS then showSnap nb' else "localstate=" ++ "|".intercalate wantLS))
     | _, _, _ => (s, wl, some "bad-pp-event")
-  | ["ppx", _, b, _, _], [tn, pairs, _, snapB] =>
+  | ["ppx", _, b, _, _], [tn, pairs, _, snapB, raw] =>
     match b.toNat?, tn.toInt? with
     | some b, some tn =>
       let ps := if pairs == "-" then [] else pairs.splitOn "|"
       let obsMsgs := ps.filterMap fun p => if p.startsWith "ok:" then parseMsg (p.drop 3).toString else none
       let nb' := mergeRemoteState cfg tn (s.node b) obsMsgs
-      (s.setNode b nb', wl, if showSnap nb' == snapB then none else some (showSnap nb'))
+      -- framing: the model's frames of the delivered bytes vs. the pairs the loop reached. The loop stops at a
+      -- frame that does not unmarshal ("bad", always last) and at a framing error ("badframe", always last).
+      let fr := framesOf ((hexDecode raw).getD [])
+      let reached := (ps.filter (· != "badframe")).length
+      let stoppedAtBad := ps.getLast? == some "bad"
+      let framingOk := (if stoppedAtBad then reached ≤ fr.1.length else reached == fr.1.length) &&
+        (stoppedAtBad || (ps.getLast? == some "badframe") == !fr.2)
+      (s.setNode b nb', wl, if !framingOk then some s!"frames={fr.1.length} clean={fr.2}"
+                            else if showSnap nb' == snapB then none else some (showSnap nb'))
     | _, _ => (s, wl, some "bad-ppx-event")
   | [w, n, key], [_, snap] =>
     if w == "w" ∨ w == "wp" then
@@ -304,7 +312,7 @@ def step (s : Sim) (wl : WLast) (ev ob : String) : Sim × WLast × Option String
 def forgedEvent (ev ob : String) : Bool :=
   match ev.splitOn "!", ob.splitOn "!" with
   | ["x", _, _, _, _], [_, cls, _, _, _] => cls == "ok"
-  | ["ppx", _, _, mode, _], [_, pairs, _, _] => mode != "trunc" && (pairs.splitOn "|").any (·.startsWith "ok:")
+  | ["ppx", _, _, mode, _], [_, pairs, _, _, _] => mode != "trunc" && (pairs.splitOn "|").any (·.startsWith "ok:")
   | _, _ => false
 
 /-- replay on the model. Content decoded from corrupted bytes is taken from the implementation's own
@@ -401,7 +409,7 @@ def judge (conf : Conf) (evs obs : List String) : List String := Id.run do
       -- a corrupted message that still decodes is indistinguishable from an authentic one: the
       -- history then contains content no writer produced (outside the quantifier)
       if cls == "ok" then js := { js with forged := true }
-    | ["ppx", _, _, mode, _], [_, pairs, before, after] =>
+    | ["ppx", _, _, mode, _], [_, pairs, before, after, _] =>
       let ps := if pairs == "-" then [] else pairs.splitOn "|"
       -- a pair is well-formed if it decodes and has a non-empty key ("Key must be non-empty", kv.proto)
       let wellFormed (p : String) : Bool := p.startsWith "ok:" && !p.startsWith "ok:="
